@@ -30,6 +30,7 @@ sets = [
     ("C13", lambda: prolog.replay_term_order([])),
     ("C13atoms", lambda: prolog.replay_atom_order([])),
     ("C21", lambda: prolog.replay_atom_identity([])),
+    ("C21growth", lambda: prolog.replay_atom_table_growth([])),
     ("C06order", lambda: prolog.replay_clause_order([])),
     ("C55", lambda: prolog.replay_hex_escapes([])),
     ("C55canon", lambda: prolog.replay_canonical([])),
